@@ -148,12 +148,119 @@ func runC05(c *engine.Ctx) {
 		}
 		return false
 	}
+	// the same question put to the evaluator (used when the dominance form below does not recognise the shape): with
+	// "cancelled by the requestor" and "network error" fixed to each combination, every path that retires the response
+	// is a cancel path that also notifies the cancelled listeners, or a network-error path that does not; and the
+	// listeners are never notified otherwise
+	retireEval := func(f *ssa.Function) bool {
+		var errP *ssa.Parameter
+		for _, p := range f.Params {
+			if isErrorType(p.Type()) {
+				errP = p
+			}
+		}
+		if errP == nil || netErrK == nil {
+			return false
+		}
+		var retires, notifies []*ssa.Call
+		for _, ci := range engine.Calls(f) {
+			if call := ci.Value(); call != nil {
+				if ci.Static == retire {
+					retires = append(retires, call)
+				}
+				if ci.Common.IsInvoke() && ci.Common.Method.Name() == "NotifyCancelledListeners" {
+					notifies = append(notifies, call)
+				}
+			}
+		}
+		isNetConst := func(v ssa.Value) bool {
+			k, ok := engine.Strip(v).(*ssa.Const)
+			return ok && k.Value != nil && k.Value.Kind() == netErrK.Val().Kind() && types.Identical(k.Type(), netErrK.Type()) && k.Value.ExactString() == netErrK.Val().ExactString()
+		}
+		okAll := true
+		for _, cancelled := range []bool{true, false} {
+			for _, netErr := range []bool{true, false} {
+				if cancelled && netErr {
+					continue
+				}
+				ev := &engine.Evaluator{MaxVisits: 2}
+				ev.Input = func(v ssa.Value) (engine.EVal, bool) {
+					switch x := v.(type) {
+					case *ssa.Call:
+						if sc := x.Call.StaticCallee(); sc != nil {
+							if sc.Name() == "IsContextCancelErr" && len(x.Call.Args) == 1 && engine.Strip(x.Call.Args[0]) == ssa.Value(errP) {
+								return engine.EVal{K: engine.EBool, B: cancelled}, true
+							}
+							if sc.Name() == "Is" && len(x.Call.Args) == 2 && engine.Strip(x.Call.Args[0]) == ssa.Value(errP) && isNetConst(x.Call.Args[1]) {
+								return engine.EVal{K: engine.EBool, B: netErr}, true
+							}
+						}
+					case *ssa.BinOp:
+						if (x.Op == token.EQL || x.Op == token.NEQ) && ((engine.Strip(x.X) == ssa.Value(errP) && isNetConst(x.Y)) || (engine.Strip(x.Y) == ssa.Value(errP) && isNetConst(x.X))) {
+							return engine.EVal{K: engine.EBool, B: netErr == (x.Op == token.EQL)}, true
+						}
+					}
+					return engine.EVal{}, false
+				}
+				ev.Call = func(call *ssa.Call, get func(ssa.Value) engine.EVal) (engine.EVal, bool) {
+					for _, r := range append(append([]*ssa.Call{}, retires...), notifies...) {
+						if call == r {
+							return engine.EVal{K: engine.EPtr, Tok: r}, true // executed marker
+						}
+					}
+					return engine.EVal{}, false
+				}
+				ev.Observe = func(in ssa.Instruction, get func(ssa.Value) engine.EVal) {
+					if _, isRet := in.(*ssa.Return); !isRet {
+						return
+					}
+					retired, notified := false, false
+					for _, r := range retires {
+						if get(r).K == engine.EPtr {
+							retired = true
+						}
+					}
+					for _, n := range notifies {
+						if get(n).K == engine.EPtr {
+							notified = true
+						}
+					}
+					switch {
+					case cancelled:
+						if retired != notified {
+							okAll = false
+						}
+					case netErr:
+						if notified {
+							okAll = false
+						}
+					default:
+						if retired || notified {
+							okAll = false
+						}
+					}
+				}
+				ev.Run(f)
+				if ev.Aborted {
+					okAll = false
+				}
+			}
+		}
+		return okAll && len(retires) > 0
+	}
 	for _, f := range m.fns {
 		hasErrParam := false
 		for _, p := range f.Params {
 			if isErrorType(p.Type()) {
 				hasErrParam = true
 			}
+		}
+		evalOK, evalDone := false, false
+		byEval := func() bool {
+			if !evalDone {
+				evalOK, evalDone = retireEval(f), true
+			}
+			return evalOK
 		}
 		for _, ci := range engine.Calls(f) {
 			if ci.Static == retire && hasErrParam {
@@ -174,7 +281,11 @@ func runC05(c *engine.Ctx) {
 						}
 					}
 				}
-				c.Decide(r3, engine.FuncName(f)+"|retire@"+condName(cc, ne), ci.Instr.Pos(), (cc && paired) || (ne && !cc),
+				okRetire := (cc && paired) || (ne && !cc)
+				if !okRetire && byEval() {
+					okRetire = true
+				}
+				c.Decide(r3, engine.FuncName(f)+"|retire@"+condName(cc, ne), ci.Instr.Pos(), okRetire,
 					"retire under context-cancel notifies the cancelled listeners; under network error the subscriber's listener reports it",
 					"a response is retired from an executor-error handler on a path that is neither 'cancelled by the requestor' (with the cancelled listeners) nor 'network error': it ends without any outcome being reported")
 			}
@@ -191,7 +302,7 @@ func runC05(c *engine.Ctx) {
 						hasRetire = true
 					}
 				}
-				c.Decide(r3, engine.FuncName(f)+"|cancelled-listeners", ci.Instr.Pos(), under && hasRetire,
+				c.Decide(r3, engine.FuncName(f)+"|cancelled-listeners", ci.Instr.Pos(), (under && hasRetire) || byEval(),
 					"cancelled listeners are notified only for a requestor cancel, together with retiring the response",
 					"cancelled listeners are notified on a path that is not a requestor cancel, or without retiring the response")
 			}
